@@ -1679,6 +1679,13 @@ func (p *parser) hoistSymbols(scope *js_ast.Scope) {
 				isSloppyModeBlockLevelFnStmt = true
 			}
 
+			// The body of a "with" statement doesn't have to be a block, in which case
+			// the "with" scope is the scope the variable was declared in instead of
+			// being one of the scopes that it's hoisted past: "with (obj) var foo = 2"
+			if scope.Kind == js_ast.ScopeWith {
+				symbol.Flags |= ast.MustNotBeRenamed
+			}
+
 			// Check for collisions that would prevent to hoisting "var" symbols up to the enclosing function scope
 			s := scope.Parent
 			for {
